@@ -39,8 +39,32 @@ const strideRuleText = "ordinate-offset discipline, decided by abstract interpre
 
 // strideRule checks the discipline on the targets.
 func strideRule(p *core.Program, r *core.Report, rule string, targets []strideTarget) {
-	r.Rule(rule, strideRuleText, len(targets))
+	strideRuleN(p, r, rule, targets, len(targets))
+}
+
+// inFile reports whether fn is declared in file `file` of package rel.
+func inFile(p *core.Program, fn *ssa.Function, rel, file string) bool {
+	pre := file + ":"
+	if rel != "" {
+		pre = rel + "/" + pre
+	}
+	return strings.HasPrefix(p.Pos(fn.Pos()), pre)
+}
+
+// strideRuleN: targets named "file:<name.go>" stand for every function declared in that file that indexes a flat
+// array (so renaming, splitting or merging functions inside the file keeps them covered); an explicit entry for a
+// function overrides the kind given by its file.
+func strideRuleN(p *core.Program, r *core.Report, rule string, targets []strideTarget, floor int) {
+	r.Rule(rule, strideRuleText, floor)
 	all := strideInfo(p)
+	explicit := map[*ssa.Function]bool{}
+	for _, t := range targets {
+		if t.name != "*" && !strings.HasPrefix(t.name, "file:") {
+			if f := p.SSAFunc(t.rel, t.name); f != nil {
+				explicit[f] = true
+			}
+		}
+	}
 	var fns []struct {
 		fn   *ssa.Function
 		kind string
@@ -66,6 +90,32 @@ func strideRule(p *core.Program, r *core.Report, rule string, targets []strideTa
 					fn   *ssa.Function
 					kind string
 				}{fn, t.kind})
+			}
+			continue
+		}
+		if strings.HasPrefix(t.name, "file:") {
+			file := strings.TrimPrefix(t.name, "file:")
+			var l []*ssa.Function
+			for fn, si := range all {
+				if fn.Parent() == nil && len(si.Sites) > 0 && inFile(p, fn, t.rel, file) && !explicit[fn] {
+					l = append(l, fn)
+				}
+			}
+			sort.Slice(l, func(i, j int) bool { return l[i].String() < l[j].String() })
+			if len(l) == 0 {
+				r.Lost(rule, relName(t.rel)+"/"+file, "no function of the file indexes a flat array any more")
+			}
+			for _, fn := range l {
+				fns = append(fns, struct {
+					fn   *ssa.Function
+					kind string
+				}{fn, t.kind})
+				for _, a := range fn.AnonFuncs {
+					fns = append(fns, struct {
+						fn   *ssa.Function
+						kind string
+					}{a, t.kind})
+				}
 			}
 			continue
 		}
